@@ -129,3 +129,29 @@ pub fn ast_mentioned_regs(block: &ast::Block) -> std::collections::BTreeSet<i32>
     block.visit_with(&mut v);
     v.0
 }
+
+pub fn from_minstrs(instrs: &[MInstr]) -> Vec<RawInstr> {
+    instrs.iter().map(|i| RawInstr { time: i.time, opcode: i.opcode, param_mask: i.mask, args_blob: i.blob.clone(), difficulty: i.difficulty, ..RawInstr::DEFAULTS }).collect()
+}
+
+/// Raise raw instructions to a flat statement list (no block recovery).  The mapfile must already be applied.
+pub fn raise_flat(truth: &mut Truth, hooks: &llir::TestLanguage, instrs: &[RawInstr], options: &truth::DecompileOptions) -> Result<Vec<truth::Sp<ast::Stmt>>, ()> {
+    let emitter = truth.emitter();
+    let ctx = truth.ctx();
+    let const_proof = truth::passes::evaluate_const_vars::run(ctx).map_err(|e| { e.ignore(); })?;
+    let mut raiser = llir::Raiser::new(hooks, ctx.emitter, ctx, options, const_proof).map_err(|e| { e.ignore(); })?;
+    let script = llir::RawScript { instrs: instrs.to_vec(), file_offset: None };
+    let stmts = raiser.raise_instrs_to_sub_ast(&emitter, &script, ctx).map_err(|e| { e.ignore(); })?;
+    raiser.generate_warnings();
+    Ok(stmts)
+}
+
+/// Format any formattable AST node at a given width.
+pub fn format_at<T: truth::Format>(node: &T, width: usize) -> Result<String, String> {
+    let mut out = vec![];
+    {
+        let mut f = truth::Formatter::with_config(&mut out, truth::fmt::Config::new().max_columns(width));
+        f.fmt(node).map_err(|e| format!("{:#}", e))?;
+    }
+    String::from_utf8(out).map_err(|e| e.to_string())
+}
